@@ -50,257 +50,11 @@ theorem lev_le_of_drop {lv : Lv} {d : Nat} (h : LvOK lv d) {cp l : Nat} (hcp : l
       simp only [List.map_cons, List.nodup_cons] at hnd
       exact ih he hmcp' (List.pairwise_cons.1 hmono).2 hnd.2
 
-theorem Forall2.imp_mem2 {α β : Type} {R S : α → β → Prop} {as : List α} {bs : List β} (h : Forall2 R as bs)
-    (hRS : ∀ a, ∀ b ∈ bs, R a b → S a b) : Forall2 S as bs := by
-  induction h with
-  | nil => exact .nil
-  | cons hd _ ih => exact .cons (hRS _ _ (by simp) hd) (ih (fun a b hb => hRS a b (by simp [hb])))
-
-theorem body_grel_call {lv : Lv} {σ' : Subst} {π' : Nat → Nat} {D' : Nat → Prop} {ρ : Nat → Nat} {d id : Nat}
-    {G1 : List (Term × Nat)} {Bs : List Term} (hid : lv.lev id = some d)
-    (h : Forall2 (fun g1 bg => InD D' g1.1 ∧ g1.2 = id ∧ img σ' π' g1.1 = bg.rename ρ) G1 Bs) :
-    GRel lv σ' π' D' G1 (Bs.map (fun bg => SLD.Frame.goal (bg.rename ρ) d)) := by
-  induction h with
-  | nil => exact .nil
-  | cons hd _ ih =>
-    refine .cons ⟨hd.1, d, ?_, fun _ => by rw [hd.2.1]; exact hid⟩ ih
-    rw [hd.2.2]
-
-/-- the goals of a clause body (cut parent `id`, level `d`) in front of the pending goals -/
-theorem cutsOK_body {lv : Lv} {d id : Nat} {G1 G : List (Term × Nat)} (hok : LvOK lv d)
-    (hidn : id ∉ lv.map Prod.fst) (hG1id : ∀ it ∈ G1, it.2 = id) (hco : CutsOK lv G) :
-    CutsOK ((id, some d) :: lv) (G1 ++ G) := by
-  have hext := hext_push (lv := lv) (id := id) (some d) hidn
-  have hcoG : CutsOK ((id, some d) :: lv) G := cutsOK_ext hext hco
-  refine ⟨?_, ?_⟩
-  · intro it hit hcut
-    rcases List.mem_append.1 hit with h | h
-    · exact ⟨d, by rw [hG1id it h, lev_cons_self]⟩
-    · exact hcoG.1 it h hcut
-  · refine List.pairwise_append.2 ⟨?_, hcoG.2, ?_⟩
-    · induction G1 with
-      | nil => exact .nil
-      | cons a G1 ih =>
-        refine List.pairwise_cons.2 ⟨?_, ih (fun it hit => hG1id it (by simp [hit]))⟩
-        intro b hb _ _ la lb hla hlb
-        rw [hG1id a (by simp), lev_cons_self] at hla
-        rw [hG1id b (by simp [hb]), lev_cons_self] at hlb
-        simp only [Option.some.injEq] at hla hlb
-        omega
-    · intro a ha b hb _ hcb la lb hla hlb
-      rw [hG1id a ha, lev_cons_self] at hla
-      simp only [Option.some.injEq] at hla
-      obtain ⟨l0, hl0⟩ := hco.1 b hb hcb
-      have := hext _ _ hl0
-      rw [this] at hlb
-      simp only [Option.some.injEq] at hlb
-      have := hok.lev_lt hl0
-      omega
-
-/-- **the clause compiled by `call/1`**: `tuple(V̄) :- G` is activated with `V̄` bound to themselves; the
-    reference runs the conjuncts of `G` one level deeper, the cut barrier being this call -/
-theorem tc_succ {k : Nat} (ihP : TPk fl tmpl max prog F k) (hprog : ∀ c ∈ prog, clauseS fl c = true) :
-    TCk fl tmpl max prog F (k + 1) := by
-  intro g' c id K env R q nv n d r lv m sig m' ans0 hda hgood hans hid0 hidn hw hb hsim hs hok hst hlt
-  cases n with
-  | zero => rw [solveAlts_zero] at hs; cases hs
-  | succ n' =>
-  rw [solveAlts_frames] at hs
-  cases hev : evalThunk F (Thunk.clause (clauseOf (qClause g')) (argList (qHead g')) K env id) m with
-  | none => rw [dfsAlts_thunk_none (sem := VM.sem F) (by exact hev)] at hda; cases hda
-  | some pr =>
-  obtain ⟨q0, m1⟩ := pr
-  obtain ⟨N, σ, π, D, G, hN, hW, hcg, hgr, hco, hq', hgv, hc⟩ := hsim
-  subst hc
-  obtain ⟨hW2, hrv2⟩ := simW_addRV hW
-  have hcr : CRel fl (clauseOf (qClause g')) (qHead g') g' := by
-    have := (clauseOf_spec (qClause g') (clauseS_qClause hb hw)).2
-    simpa [qClause, headBody_rule] using this
-  have hσg : ∀ v, g'.hasVar v = true → σ v = .var v := by
-    intro v hv
-    obtain ⟨w, _, hwv⟩ := hgv v hv
-    exact hW.mg.mgu.fixes hwv
-  have hπg : ∀ v, g'.hasVar v = true → π v < nv := fun v hv => hW.bnd v (hgv v hv)
-  have himg_g : ∀ t : Term, (∀ v, t.hasVar v = true → g'.hasVar v = true) → img σ π t = t.rename π := by
-    intro t ht
-    have : t.subst σ = t.subst (fun v => .var v) := subst_congr t _ _ (fun v hv => hσg v (ht v hv))
-    simp only [img, this, Term.subst_id]
-  have hcv : ∀ x, ((qHead g').hasVar x = true ∨ g'.hasVar x = true) → g'.hasVar x = true := by
-    rintro x (hx | hx)
-    · exact (qHead_hasVar g' x).1 hx
-    · exact hx
-  have hgD : InD (fun v => D v ∨ RV σ D v) (qHead g') :=
-    fun v hv => Or.inr (hgv v ((qHead_hasVar g' v).1 hv))
-  have hτ : MguLike (img σ π (qHead g')) ((qHead g').rename (fun x => π x + nv)) (tauC g' π nv) := by
-    rw [himg_g _ (fun v hv => (qHead_hasVar g' v).1 hv)]
-    exact tauC_mgu hπg (qHead_hasVar g')
-  rcases thunk_head' (max := max) hcr hW2 F (qHead g') K id m (q0, m1) hN hgD (qHead_shape g') ⟨rfl, rfl⟩ hev
-      (fun x => π x + nv) (2 * nv) (by omega)
-      (fun x y hx hy hxy => hW.inj x y (hgv x (hcv x hx)) (hgv y (hcv y hy))
-        (by have : π x + nv = π y + nv := hxy
-            omega))
-      (fun x u hx hu => by
-        have := hW.bnd u ((hrv2 u).1 hu)
-        show π u ≠ π x + nv
-        omega)
-      (fun x hx => by
-        have := hπg x (hcv x hx)
-        show π x + nv < 2 * nv
-        omega) with
-    ⟨N', _, _, hno⟩ | ⟨fuel', env', N', K1, Bs, hN', hcont, hBs, _, hokh⟩
-  · exact absurd hτ.sound (hno _)
-  · obtain ⟨σ', π', D', G1, hW', hDD', heq, hcgK1, hbody, hDchar⟩ := hokh _ hτ
-    -- the images of the terms in use do not change
-    have himg_old : ∀ t, InD (fun v => D v ∨ RV σ D v) t → img σ' π' t = img σ π t := by
-      intro t ht
-      rw [heq t ht]
-      apply tauC_b
-      intro z hz
-      have hz' : ((t.subst σ).rename π).hasVar z = true := hz
-      obtain ⟨u, hu, rfl⟩ := hasVar_rename _ hz'
-      exact hW2.bnd u (vars_subst_rv ht hu)
-    have hvar : ∀ v : Nat, ∀ P : Nat → Prop, P v → ∀ w, (Term.var v).hasVar w = true → P w := by
-      intro v P hP w hw
-      simp only [Term.hasVar, beq_iff_eq] at hw
-      subst hw; exact hP
-    have hWB : SimW tmpl N' env' σ' π' D' nv := by
-      refine ⟨hW'.mg, hW'.chain, hW'.pos, hW'.dlt, hW'.inj, ?_, hW'.tmplD⟩
-      rintro x ⟨v, hv, hx⟩
-      have h1 : (img σ' π' (.var v)).hasVar (π' x) = true := by
-        simpa [img, Term.subst] using hasVar_rename_of hx
-      rcases hDchar v hv with hv0 | ⟨x0, hx0, hx0e⟩
-      · rw [himg_old (.var v) (hvar v _ hv0)] at h1
-        have h1' : (((Term.var v).subst σ).rename π).hasVar (π' x) = true := h1
-        obtain ⟨u, hu, hux⟩ := hasVar_rename _ h1'
-        rw [← hux]
-        exact hW2.bnd u (vars_subst_rv (t := .var v) (hvar v _ hv0) hu)
-      · rw [hx0e, tauC_a (t := .var x0) (hvar x0 (fun w => g'.hasVar w = true) (hcv _ hx0))] at h1
-        simp only [Term.rename, Term.subst, Term.hasVar, beq_iff_eq] at h1
-        have := hπg x0 (hcv x0 hx0)
-        omega
-    have hq1 : q = img σ' π' tmpl := by
-      rw [hq', himg_old tmpl (fun v hv => Or.inl (hW.tmplD v hv))]
-    have hlv1 : ((id, some d) :: lv).map Prod.fst =
-        push ({ id := id, delayed := [] } : Pr).id (lv.map Prod.fst) := by
-      simp [push, hid0]
-    have hext := hext_push (lv := lv) (id := id) (some d) hidn
-    have hok1 : LvOK ((id, some d) :: lv) (d + 1) := hok.push hid0 hidn
-    have hgrR : GRel ((id, some d) :: lv) σ' π' D' G R :=
-      (grel_ext hext hgr).step_id (fun v hv => hDD' v (Or.inl hv))
-        (fun t ht => himg_old t (fun v hv => Or.inl (ht v hv)))
-    have hcoG : CutsOK ((id, some d) :: lv) G := cutsOK_ext hext hco
-    have hG1id : ∀ it ∈ G1, it.2 = id := forall2_left hbody (fun a b h => h.2.1)
-    have hcoAll : CutsOK ((id, some d) :: lv) (G1 ++ G) := cutsOK_body hok hidn hG1id hco
-    cases hs1 : SLD.solve false (progS prog) n' (d + 1) nv (SLD.bodyFrames false (g'.rename π) d ++ R) q
-        (max - ans0.length) with
-    | none => rw [hs1] at hs; simp at hs
-    | some r1 =>
-    rw [hs1] at hs
-    simp only at hs
-    subst hans
-    have hspec1 : PSpec fl tmpl max prog ((id, some d) :: lv) (d + 1) q0 m1 m.user.answers r1 ∧ StOK prog m1 ∧
-        N' ≤ m1.user.nextVar := by
-      rcases hBs with hBs | ⟨hBs, hbt⟩
-      · have hgr1 : GRel ((id, some d) :: lv) σ' π' D' (G1 ++ G) (SLD.bodyFrames false (g'.rename π) d ++ R) := by
-          refine Forall2.append ?_ hgrR
-          simp only [SLD.bodyFrames, Bool.false_eq_true, if_false, conjuncts_rename, hBs, List.map_map]
-          refine body_grel_call (ρ := π) (lev_cons_self id (some d) lv) (Forall2.imp_mem2 hbody ?_)
-          rintro a bg hbg ⟨h1, h2, h3⟩
-          refine ⟨h1, h2, ?_⟩
-          rw [h3]
-          exact tauC_a (fun v hv => conjuncts_vars (hBs ▸ hbg) hv)
-        exact cont_run tmpl max prog hprog fuel' K1 env' (bump m N') q0 m1 hcont
-          (fun hfl => hgood _ _ .here hfl _ hev) _ _ _ _
-          ⟨N', σ', π', D', G1 ++ G, Nat.le_refl _, hWB, hcgK1 G hcg, hgr1, hcoAll, hq1, trivial⟩
-          (stOK_bump hst N') n' (d + 1) r1 hs1
-      · subst hBs
-        cases hbody
-        have e1 : SLD.bodyFrames false (g'.rename π) d ++ R = SLD.Frame.goal (.atom "true") d :: R := by
-          rw [hbt]
-          simp [SLD.bodyFrames, SLD.conjuncts, SLD.wrapVar, Term.rename, Term.subst]
-        rw [e1] at hs1
-        cases n' with
-        | zero => rw [solve_zero] at hs1; cases hs1
-        | succ n'' =>
-          rw [solve_true] at hs1
-          exact cont_run tmpl max prog hprog fuel' K1 env' (bump m N') q0 m1 hcont
-            (fun hfl => hgood _ _ .here hfl _ hev) _ _ _ _
-            ⟨N', σ', π', D', G, Nat.le_refl _, hWB, by simpa using hcgK1 G hcg, hgrR, hcoG, hq1, trivial⟩
-            (stOK_bump hst N') n'' (d + 1) r1 hs1
-    obtain ⟨hspec, hst1, hnv1⟩ := hspec1
-    have hmm1 : m.user.nextVar ≤ m1.user.nextVar := Nat.le_trans hN' hnv1
-    rcases after_child ihP hda hgood (by exact hev) hlv1 hspec hok1 hst1 hlt rfl with
-      hill | ⟨m2, hm, hf, _⟩ | ⟨sig1, m2, hm, hne, hresA⟩
-    · exact Or.inl hill
-    · -- exhausted: the frame of the call is empty
-      right
-      rcases hm.stop with ⟨_, hstop, hlen⟩ | ⟨_, _, h1, _⟩ | ⟨h1, _⟩ | ⟨_, _, _, _, _, h1, _⟩
-      · rw [hstop] at hs
-        cases n' with
-        | zero => rw [solve_zero] at hs1; cases hs1
-        | succ n'' =>
-        rw [solveAlts_nil] at hs
-        simp only [SLD.failed, Option.map_some, SLD.Res.prepend, List.append_nil, Option.some.injEq] at hs
-        subst hs
-        cases k with
-        | zero => simp [dfsP] at hf
-        | succ k' =>
-          rw [leaf_ok' rfl rfl] at hf
-          simp only [Option.some.injEq, Prod.mk.injEq] at hf
-          obtain ⟨rfl, rfl⟩ := hf
-          exact ⟨hm.ans, Or.inl ⟨rfl, rfl, hlen⟩, hm.st, Nat.le_trans hmm1 hm.nvar⟩
-      · cases h1
-      · cases h1
-      · cases h1
-    · right
-      rcases hm.stop with ⟨h1, _, _⟩ | ⟨c0, l, h1, hstop, h3, h4⟩ | ⟨h1, hstop⟩ | ⟨F', c1, c2, ex, co, h1, hstop⟩
-      · exact absurd h1 hne
-      · subst h1
-        rw [hstop] at hs
-        simp only [Option.some.injEq] at hs
-        subst hs
-        by_cases hc0 : c0 = id
-        · -- a cut of the called goal: local to the call
-          subst hc0
-          rw [lev_cons_self] at h3
-          simp only [Option.some.injEq] at h3
-          subst h3
-          rw [absorb_cut_eq] at hresA
-          simp only [Prod.mk.injEq] at hresA
-          obtain ⟨rfl, rfl⟩ := hresA
-          exact ⟨hm.ans, Or.inl ⟨rfl, by simp, h4⟩, hm.st, Nat.le_trans hmm1 hm.nvar⟩
-        · rw [absorb_cut_ne m2 hc0] at hresA
-          simp only [Prod.mk.injEq] at hresA
-          obtain ⟨rfl, rfl⟩ := hresA
-          rw [lev_cons_ne (some d) lv hc0] at h3
-          have hld : l ≠ d := by have := hok.lev_lt h3; omega
-          exact ⟨hm.ans, Or.inr (Or.inl ⟨c0, l, rfl, by simp [hld], h3, h4⟩), hm.st,
-            Nat.le_trans hmm1 hm.nvar⟩
-      · subst h1
-        rw [hstop] at hs
-        simp only [Option.some.injEq] at hs
-        subst hs
-        rw [absorb_found] at hresA
-        simp only [Prod.mk.injEq] at hresA
-        obtain ⟨rfl, rfl⟩ := hresA
-        exact ⟨hm.ans, Or.inr (Or.inr (Or.inl ⟨rfl, hstop⟩)), hm.st, Nat.le_trans hmm1 hm.nvar⟩
-      · subst h1
-        rw [hstop] at hs
-        simp only [Option.some.injEq] at hs
-        subst hs
-        obtain ⟨co', hco'⟩ := absorb_raised id (.exc (errT F' c1)) co m2
-        rw [hco'] at hresA
-        simp only [Prod.mk.injEq] at hresA
-        obtain ⟨rfl, rfl⟩ := hresA
-        exact ⟨hm.ans, Or.inr (Or.inr (Or.inr ⟨F', c1, c2, ex, co', rfl, hstop⟩)), hm.st,
-          Nat.le_trans hmm1 hm.nvar⟩
-
 theorem afterCut_answers (l : Nat) (r : SLD.Res) : (SLD.afterCut l r).answers = r.answers := by
   unfold SLD.afterCut
   split <;> rfl
 
 theorem tp_succ {k : Nat} (ihA : TAk fl tmpl max prog F k) (ihD : TDk fl tmpl max prog F k)
-    (ihC : TCk fl tmpl max prog F k)
     (ihPall : ∀ j, j ≤ k → TPk fl tmpl max prog F j) (hprog : ∀ c ∈ prog, clauseS fl c = true) :
     TPk fl tmpl max prog F (k + 1) := by
   intro p lv m sig m' hd hgood d ans0 r hspec hok hst hlt
@@ -339,43 +93,43 @@ theorem tp_succ {k : Nat} (ihA : TAk fl tmpl max prog F k) (ihD : TDk fl tmpl ma
     obtain ⟨rfl, rfl⟩ := hd
     exact Or.inr ⟨⟨[], (by show m.user.answers = [] ++ ans0; simpa using hans), .nil⟩,
       Or.inr (Or.inr (Or.inr ⟨F', c1, c2, [], none, rfl, rfl⟩)), stOK_tick hst, Nat.le_refl _⟩
-  | alts hans hid0 hcs hshape hsim hs =>
-    rename_i id cs g g2 K env R q nv n
-    cases cs with
+  | alts hans hid0 hshape hsim hs =>
+    rename_i id its g K env R q nv n
+    cases its with
     | nil =>
       rw [leaf_ok' rfl rfl] at hd
       simp only [Option.some.injEq, Prod.mk.injEq] at hd
       obtain ⟨rfl, rfl⟩ := hd
       cases n with
-      | zero => rw [List.map_nil, solveAlts_zero] at hs; cases hs
+      | zero => rw [List.filterMap_nil, solveAlts_zero] at hs; cases hs
       | succ n' =>
-        rw [List.map_nil, solveAlts_nil] at hs
+        rw [List.filterMap_nil, solveAlts_nil] at hs
         simp only [SLD.failed, Option.some.injEq] at hs
         subst hs
         exact Or.inr ⟨⟨[], (by show m.user.answers = [] ++ ans0; simpa using hans), .nil⟩,
           Or.inl ⟨rfl, rfl, by rw [show (tick m).user.answers = m.user.answers from rfl, hans]; exact hlt⟩,
           stOK_tick hst, Nat.le_refl _⟩
-    | cons c cs' =>
+    | cons it its' =>
       by_cases hid : (id ≠ 0 ∧ (lv.map Prod.fst).contains id)
       · rw [ill_id' rfl hid] at hd
         simp only [Option.some.injEq, Prod.mk.injEq] at hd
         exact Or.inl hd.1.symm
       · rw [nocut' rfl hid rfl] at hd
-        have hf : afterChild ({ ({ id := id, delayed := (c :: cs').map (fun c => Thunk.clause (clauseOf c) (argList g) K env id) } : Pr) with cutParent := none }) =
-            ({ id := id, delayed := cs'.map (fun c => Thunk.clause (clauseOf c) (argList g) K env id) } : Pr) := by
+        have hf : afterChild ({ ({ id := id, delayed := (it :: its').map (fun it => Thunk.clause (clauseOf it.1) (argList g) K env id) } : Pr) with cutParent := none }) =
+            ({ id := id, delayed := its'.map (fun it => Thunk.clause (clauseOf it.1) (argList g) K env id) } : Pr) := by
           simp [afterChild]
         rw [hf] at hd
         simp only [List.map_cons] at hd
         have hidn : id ∉ lv.map Prod.fst := by
           intro hmem
           exact hid ⟨hid0, by simpa using hmem⟩
-        have hgA : GoodA fl F k (Thunk.clause (clauseOf c) (argList g) K env id)
-            { id := id, delayed := cs'.map (fun c => Thunk.clause (clauseOf c) (argList g) K env id) }
+        have hgA : GoodA fl F k (Thunk.clause (clauseOf it.1) (argList g) K env id)
+            { id := id, delayed := its'.map (fun it => Thunk.clause (clauseOf it.1) (argList g) K env id) }
             (lv.map Prod.fst) (tick m) := by
           intro x mx hx
           rw [← hf] at hx
-          exact hgood x mx (.nocut (ts := cs'.map (fun c => Thunk.clause (clauseOf c) (argList g) K env id)) rfl hid rfl hx)
-        rcases ihA c cs' id g g2 K env R q nv n d r lv (tick m) sig m' ans0 hd hgA hans hid0 hidn hcs hshape hsim hs
+          exact hgood x mx (.nocut (ts := its'.map (fun it => Thunk.clause (clauseOf it.1) (argList g) K env id)) rfl hid rfl hx)
+        rcases ihA it its' id g K env R q nv n d r lv (tick m) sig m' ans0 hd hgA hans hid0 hidn hshape hsim hs
           hok (stOK_tick hst) hlt with hill | hm
         · exact Or.inl hill
         · exact Or.inr (hm.from (Nat.le_refl _))
@@ -399,29 +153,6 @@ theorem tp_succ {k : Nat} (ihA : TAk fl tmpl max prog F k) (ihD : TDk fl tmpl ma
         rw [← hf] at hx
         exact hgood x mx (.nocut (ts := []) rfl hid rfl hx)
       rcases ihD ct id K env R q nv n d r lv (tick m) sig m' ans0 hd hgA hans hid0 hidn hcode hvars hsim hs
-        hok (stOK_tick hst) hlt with hill | hm
-      · exact Or.inl hill
-      · exact Or.inr (hm.from (Nat.le_refl _))
-  | callp hans hid0 hw hb hsim hs =>
-    rename_i id g' c K env R q nv n
-    by_cases hid : (id ≠ 0 ∧ (lv.map Prod.fst).contains id)
-    · rw [ill_id' rfl hid] at hd
-      simp only [Option.some.injEq, Prod.mk.injEq] at hd
-      exact Or.inl hd.1.symm
-    · rw [nocut' rfl hid rfl] at hd
-      have hf : afterChild ({ ({ id := id, delayed := [Thunk.clause (clauseOf (qClause g')) (argList (qHead g')) K env id] } : Pr) with cutParent := none }) =
-          ({ id := id, delayed := [] } : Pr) := by
-        simp [afterChild]
-      rw [hf] at hd
-      have hidn : id ∉ lv.map Prod.fst := by
-        intro hmem
-        exact hid ⟨hid0, by simpa using hmem⟩
-      have hgA : GoodA fl F k (Thunk.clause (clauseOf (qClause g')) (argList (qHead g')) K env id)
-          { id := id, delayed := [] } (lv.map Prod.fst) (tick m) := by
-        intro x mx hx
-        rw [← hf] at hx
-        exact hgood x mx (.nocut (ts := []) rfl hid rfl hx)
-      rcases ihC g' c id K env R q nv n d r lv (tick m) sig m' ans0 hd hgA hans hid0 hidn hw hb hsim hs
         hok (stOK_tick hst) hlt with hill | hm
       · exact Or.inl hill
       · exact Or.inr (hm.from (Nat.le_refl _))
@@ -536,23 +267,18 @@ theorem tp_zero : TPk fl tmpl max prog F 0 := by
   simp [dfsP] at hd
 
 theorem ta_zero : TAk fl tmpl max prog F 0 := by
-  intro c cs id g g2 K env R q nv n d r lv m sig m' ans0 hda
+  intro it its id g K env R q nv n d r lv m sig m' ans0 hda
   simp [dfsAlts] at hda
 
 theorem td_zero : TDk fl tmpl max prog F 0 := by
   intro ct id K env R q nv n d r lv m sig m' ans0 hda
   simp [dfsAlts] at hda
 
-theorem tc_zero : TCk fl tmpl max prog F 0 := by
-  intro g' c id K env R q nv n d r lv m sig m' ans0 hda
-  simp [dfsAlts] at hda
-
 theorem t_all (hprog : ∀ c ∈ prog, clauseS fl c = true) : ∀ k : Nat,
-    (∀ j, j ≤ k → TPk fl tmpl max prog F j) ∧ TAk fl tmpl max prog F k ∧ TDk fl tmpl max prog F k ∧
-      TCk fl tmpl max prog F k
+    (∀ j, j ≤ k → TPk fl tmpl max prog F j) ∧ TAk fl tmpl max prog F k ∧ TDk fl tmpl max prog F k
   | 0 => ⟨fun j hj => by
       have : j = 0 := by omega
-      subst this; exact tp_zero, ta_zero, td_zero, tc_zero⟩
+      subst this; exact tp_zero, ta_zero, td_zero⟩
   | k + 1 =>
     have ih := t_all hprog k
     have ihP : TPk fl tmpl max prog F k := ih.1 k (Nat.le_refl k)
@@ -561,8 +287,8 @@ theorem t_all (hprog : ∀ c ∈ prog, clauseS fl c = true) : ∀ k : Nat,
       · exact ih.1 j (by omega)
       · have : j = k + 1 := by omega
         subst this
-        exact tp_succ ih.2.1 ih.2.2.1 ih.2.2.2 ih.1 hprog,
-     ta_succ ihP hprog, td_succ ihP hprog, tc_succ ihP hprog⟩
+        exact tp_succ ih.2.1 ih.2.2 ih.1 hprog,
+     ta_succ ihP hprog, td_succ ihP hprog⟩
 
 theorem tp_all (hprog : ∀ c ∈ prog, clauseS fl c = true) (k : Nat) : TPk fl tmpl max prog F k :=
   (t_all hprog k).1 k (Nat.le_refl k)
